@@ -354,6 +354,11 @@ func keysOf(s lockSet) []string {
 }
 
 // isMutexOf: the mutex operand is the named field of an object of the protected type.
+// isWaitGroupPkg: sync.WaitGroup and esbuild's own helpers.ThreadSafeWaitGroup have the same Add/Done/Wait protocol.
+func isWaitGroupPkg(path string) bool {
+	return path == "sync" || path == modPath+"/internal/helpers"
+}
+
 func isMutexOf(v ssa.Value, typeName string) bool {
 	fa, ok := v.(*ssa.FieldAddr)
 	if !ok {
@@ -443,7 +448,7 @@ func runWaitGroupRules(p *Program, id string) ([]*Gen, []string) {
 								continue
 							}
 							callee := cc.StaticCallee()
-							if callee == nil || callee.Pkg == nil || callee.Pkg.Pkg.Path() != "sync" || len(cc.Args) == 0 {
+							if callee == nil || callee.Pkg == nil || !isWaitGroupPkg(callee.Pkg.Pkg.Path()) || len(cc.Args) == 0 {
 								continue
 							}
 							if !strings.Contains(cc.Args[0].Type().String(), "WaitGroup") {
@@ -487,7 +492,7 @@ func runWaitGroupRules(p *Program, id string) ([]*Gen, []string) {
 									continue
 								}
 								callee := f.call.Call.StaticCallee()
-								if callee != nil && callee.Name() == "Add" && callee.Pkg != nil && callee.Pkg.Pkg.Path() == "sync" && len(f.call.Call.Args) > 0 && valuePath(f.call.Call.Args[0]) == w {
+								if callee != nil && callee.Name() == "Add" && callee.Pkg != nil && isWaitGroupPkg(callee.Pkg.Pkg.Path()) && len(f.call.Call.Args) > 0 && valuePath(f.call.Call.Args[0]) == w {
 									found = true
 								}
 							}
